@@ -32,6 +32,7 @@
 #include "llvm/Transforms/IPO/AlwaysInliner.h"
 #include "llvm/Transforms/Scalar/EarlyCSE.h"
 #include "llvm/Transforms/Scalar/SROA.h"
+#include "llvm/Transforms/Utils/ModuleUtils.h"
 #include <map>
 #include <string>
 
@@ -782,13 +783,17 @@ int main(int argc, char **argv) {
   if (InlineInternal) {
     // "inlined view": every function with internal linkage (file-local helpers) is inlined into its callers, so
     // that rules about a public function see the whole of what it does however it is split into helpers
+    std::vector<GlobalValue *> Keep;
     for (Function &F : *M) {
       if (F.isDeclaration() || !F.hasLocalLinkage())
         continue;
       F.removeFnAttr(Attribute::NoInline);
       F.removeFnAttr(Attribute::OptimizeNone);
       F.addFnAttr(Attribute::AlwaysInline);
+      Keep.push_back(&F);
     }
+    // keep the helpers themselves defined (with their own helpers inlined) so that rules can still look at them
+    appendToCompilerUsed(*M, Keep);
     PassBuilder PB;
     LoopAnalysisManager LAM;
     FunctionAnalysisManager FAM;
